@@ -1,19 +1,8 @@
 (* Entry points evaluated by the correspondence check: [run entry args] returns the
    canonical rendering of what the model computes.  Arguments are ASCII/hex byte strings. *)
-From FF Require Import model.Bytes model.Show model.EntryEqual.
+From FF Require Import model.Bytes model.Show model.EntryEqual model.RunCodec.
 From Coq Require Import String.
 Open Scope N_scope.
-
-Fixpoint split_on_aux (sep : byte) (bs cur : bytes) : list bytes :=
-  match bs with
-  | [] => [rev cur]
-  | b :: r => if byte_eqb b sep then rev cur :: split_on_aux sep r [] else split_on_aux sep r (b :: cur)
-  end.
-Definition split_on (sep : byte) (bs : bytes) : list bytes :=
-  match bs with [] => [] | _ => split_on_aux sep bs [] end.
-
-Definition comma : byte := "," %byte.
-Definition colon : byte := ":" %byte.
 
 (* C20 *)
 Definition parse_centry (bs : bytes) : centry :=
@@ -49,7 +38,7 @@ Definition first_some (l : list (option bytes)) : bytes :=
   fold_right (fun o acc => match o with Some x => x | None => acc end) (str "unknown-entry") l.
 
 Definition run (entry : bytes) (args : list bytes) : bytes :=
-  first_some [run_c20 entry args].
+  first_some [run_c20 entry args; run_codec entry args].
 
 (* In-kernel cross-evaluation: cases are (entry, hex/ASCII args, expected). *)
 Definition mismatches (cases : list (string * list string * string)) : list (string * list string * string) :=
